@@ -101,6 +101,7 @@ func C03(c *Ctx) {
 	}
 
 	c.noDropRules("C03-3")
+	c.perIterationStateRule("C03-6", "/pkg/parser", "Parser", "GenerateBaseCode")
 
 	r.Rule("C03-5", "lookupType: an unqualified function name of a notation is resolved with Scope().Innermost(pos).LookupParent(name, pos) of the package scope (so file-scope names from dot-imports resolve); a qualified one through the import table")
 	if fn := c.MustMethod("C03-5", "/pkg/parser", "Parser", "lookupType"); fn != nil {
@@ -283,6 +284,8 @@ func C11(c *Ctx) {
 		}
 		r.Check("C11-5", FnKey(fn)+":strip-before-print", c.Pos(fn.Pos()), ok, "the `convergen` build constraint / go:generate directives are not removed from the printed file unconditionally before printing")
 	}
+
+	c.anchoredRegexpRule("C11-8", "parser.reGoBuildGen", "parser.reNotation")
 
 	r.Rule("C11-6", "util.ExtractMatchComments visits every comment of the group (the loop has no exit other than exhaustion), appends every matching comment to the removed list and every non-matching one after the first match to the kept list")
 	if fn := c.MustFunc("C11-6", "/pkg/util", "ExtractMatchComments"); fn != nil {
